@@ -2,6 +2,7 @@
 import re
 
 from ..core.engine import Res
+from ..core.rules import exhaustive_loop
 from ..core.rules import who_calls, wire, order, must_pass, branch_must_pass, guard, call_matches
 from ..core.origins import Origins
 from ..core.facts import callee_name
@@ -68,6 +69,7 @@ def receiver_exclusion(P):
 
 def run(ctx):
     P = ctx.P
+    ctx.check('EXHAUSTIVE-LOOP', 'every node of the direct path of a removed / updated leaf is blanked', lambda P_: exhaustive_loop(P_, 'NodeVec::blank_direct_path'), floor=1)
     cfg = ctx.config
     ctx.check('WHO-CALLS', 'hpke_seal callers',
               lambda P_: who_calls(P_, r'CipherSuiteProvider::hpke_seal(_psk)?$',
